@@ -242,8 +242,13 @@ Inductive op :=
 | OpStoreTwice                (* store.to_json_string() twice on one thread, each call's result kept *)
 | OpExport (i : nat)          (* resource.to_txt_file(<another directory>/<same file name>): an export; it
                                  is not the stand-off file, the changed flag is left alone *)
-| OpSaveTxt (i : nat).        (* resource.to_txt_file(<its own stand-off filename>): writes the stand-off
+| OpSaveTxt (i : nat)         (* resource.to_txt_file(<its own stand-off filename>): writes the stand-off
                                  file and then clears the flag (resources.rs to_txt_file) *)
+| OpSaveCbor                  (* store.save() of a store in CBOR format: one binary file; the stand-off
+                                 files and the changed flags are not touched (to_cbor_file) *)
+| OpRefused (i : nat)         (* ToJson::to_json_string(member, config whose dataformat is not JSON):
+                                 set NoInclude, refuse, set AllowInclude, Err (json.rs) *)
+| OpRefusedThenStore (i : nat). (* the refused call, then store.to_json_string() on the same thread *)
 
 Definition kind_of (mem : list fkind) (i : nat) : fkind := nth i mem NoFile.
 
@@ -265,7 +270,15 @@ Definition prog (fuel : nat) (mem : list fkind) (o : op) : list cmd :=
       | TxtBroken => [Yield; Fail]
       | _ => [Yield]
       end
+  | OpSaveCbor => [Yield]
+  | OpRefused _ => [Yield; SetMode NoInc; SetMode Allow; Fail]
+  | OpRefusedThenStore _ =>
+      [Yield; SetMode NoInc; SetMode Allow; Fail; EndCall] ++ ser_members fuel 0 mem ++ [EndCall]
   end.
+
+(* the calls whose static reading is defined (no refusal) *)
+Definition plain_op (o : op) : bool :=
+  match o with OpRefused _ | OpRefusedThenStore _ => false | _ => true end.
 
 Definition model_fuel : nat := 6.
 
